@@ -132,11 +132,10 @@ theorem grow0_bdatFail (s : S) (k left : Nat) (last : Bool) (err : BRes) : GrowB
     · exact GrowBy.of_same (so_closeConn _)
     · exact GrowBy.rfl' _
   generalize (if err == errPanic then closeConn s2 else s2) = s3 at h3 ⊢
-  have h4 : ∀ n, GrowBy s3 (setLimit (resetConn s3) n) 0 := by
-    intro n
-    have := (GrowBy.of_same (so_resetConn s3)).trans (GrowBy.of_drecs (s := resetConn s3) (s' := setLimit (resetConn s3) n) rfl)
+  have h4 : GrowBy s3 (armLimit (resetConn s3)) 0 := by
+    have := (GrowBy.of_same (so_resetConn s3)).trans (GrowBy.of_drecs (s := resetConn s3) (s' := armLimit (resetConn s3)) rfl)
     simpa using this
-  simpa using ((h1.trans h2).trans h3).trans (h4 _)
+  simpa using ((h1.trans h2).trans h3).trans h4
 
 theorem grow0_bdatFinal (s : S) (k : Nat) : GrowBy s (bdatFinal s k).1 0 := by
   unfold bdatFinal
@@ -162,8 +161,8 @@ theorem grow0_bdatFinal (s : S) (k : Nat) : GrowBy s (bdatFinal s k).1 0 := by
 theorem grow0_bdatDone (s : S) (k size : Nat) (last : Bool) : GrowBy s (bdatDone s k size last).1 0 := by
   unfold bdatDone
   simp only []
-  have h1 : GrowBy s (setLimit (addBytesReceived s size) s.cfg.maxLine) 0 := GrowBy.of_drecs rfl
-  generalize setLimit (addBytesReceived s size) s.cfg.maxLine = s1 at h1 ⊢
+  have h1 : GrowBy s (armLimit (addBytesReceived s size)) 0 := GrowBy.of_drecs rfl
+  generalize armLimit (addBytesReceived s size) = s1 at h1 ⊢
   split
   · simpa using h1.trans (GrowBy.of_drecs (drecs_reply s1 250 ⟨2, 0, 0⟩ "Continue"))
   · simpa using h1.trans (grow0_bdatFinal s1 k)
